@@ -538,7 +538,11 @@ func runC03(env *core.Env, ci any) {
 				head = fmt.Sprintf("CONNECT %s %s\r\nHost: %s\r\n%s\r\n", hp, proto, hp, c03ConnLine(c))
 			case "upgrade":
 				hp := fmt.Sprintf("target.example:%d", 7000+t.idx)
-				head = fmt.Sprintf("GET http://%s/ws/t%d. HTTP/1.1\r\nHost: %s\r\nConnection: Upgrade\r\nUpgrade: websocket\r\nSec-WebSocket-Key: x\r\n\r\n", hp, t.idx, hp)
+				conn := "Upgrade"
+				if c.ConnOpt != "" {
+					conn = "Upgrade, " + c.ConnOpt // e.g. "Upgrade, close": still an upgrade request
+				}
+				head = fmt.Sprintf("GET http://%s/ws/t%d. HTTP/1.1\r\nHost: %s\r\nConnection: %s\r\nUpgrade: websocket\r\nSec-WebSocket-Key: x\r\n\r\n", hp, t.idx, hp, conn)
 			default:
 				hp := fmt.Sprintf("t%d.tunnel.example:443", t.idx)
 				head = fmt.Sprintf("CONNECT %s %s\r\nHost: %s\r\n%s\r\n", hp, proto, hp, c03ConnLine(c))
